@@ -773,7 +773,9 @@ func (w *World) Apply(e Event) error {
 		if err != nil {
 			res = err.Error()
 		}
+		w.mu.Lock() // the services' goroutines log concurrently ("out ...")
 		w.Log = append(w.Log, fmt.Sprintf("  AddBlock -> %q", res))
+		w.mu.Unlock()
 		if err != nil && !errors.Is(err, core.ErrAlreadyExists) {
 			w.mu.Lock()
 			w.Commits = append(w.Commits, &Commit{Node: e.N, Height: e.H, Hash: src.Hash, Err: fmt.Sprintf("hand-over from node %d rejected: %v", e.T, err), Step: w.Step})
